@@ -6,7 +6,8 @@ import sys, os, re, json, time, subprocess, hashlib, shutil, collections, multip
 
 VERIF = os.path.dirname(os.path.dirname(os.path.abspath(__file__)))
 REPO = os.environ.get('VK_REPO', '/repo')
-OUT = os.path.join(VERIF, 'out')
+OUT = os.environ.get('VK_OUT') or os.path.join(VERIF, 'out')
+EVID = os.environ.get('VK_EVIDENCE') or os.path.join(VERIF, 'evidence')     # (development: seeds are tried on a scratch worktree with VK_REPO / VK_OUT / VK_EVIDENCE)
 sys.path.insert(0, os.path.join(VERIF, 'vk'))
 sys.setrecursionlimit(20000)
 
@@ -517,8 +518,8 @@ def finish(pid, tier, seed, spec, reports, t_start, fatal=None, build_s=0.0):
                        'build_seconds': round(build_s, 1), 'broken': broken, 'deepening_not_exhausted': notes},
           'assumptions': spec.get('assumptions', []) + COMMON_ASSUMPTIONS,
           'wall_s': round(wall, 2), 'violations': len(viol)}
-    os.makedirs(os.path.join(VERIF, 'evidence'), exist_ok=True)
-    json.dump(ev, open(os.path.join(VERIF, 'evidence', pid + '.json'), 'w'), indent=1, default=str)
+    os.makedirs(EVID, exist_ok=True)
+    json.dump(ev, open(os.path.join(EVID, pid + '.json'), 'w'), indent=1, default=str)
     for rep in reports:
         log('[%s] %-28s %-5s eng=%s paths=%s queries=%s solver=%ss wall=%ss validated=%s viol=%d known=%d %s' % (pid, rep['job'], rep['status'], rep['engine'], rep.get('paths', '-'),
             rep.get('sat', 0) + rep.get('unsat', 0) if rep['engine'] == 'B' else rep.get('nprops'), rep.get('solver_s', '-'), rep.get('wall_s', '-'), rep.get('validated', '-'),
